@@ -14,11 +14,11 @@ open CM CM.Model CM.Proofs
 /-- (a) The filter's output is its input with some `<` replaced by `&lt;` and nothing else changed —
     for every predicate, every raw text. -/
 theorem filterRaw_only_lt (p : Bytes → Bool) (raw : Bytes) : OnlyLt raw (filterRaw p raw) :=
-  filterLoop_onlyLt p raw .copy 0
+  filterLoop_onlyLt p raw
 
 /-- (a) A predicate that rejects nothing changes nothing. -/
 theorem filter_none_id (p : Bytes → Bool) (hp : ∀ n, p n = false) (raw : Bytes) : filterRaw p raw = raw :=
-  filterLoop_id p hp raw .copy 0
+  filterLoop_id p hp raw
 
 /-- `OnlyLt` never changes the number of bytes other than by the three extra bytes per escape, and keeps
     every non-`<` byte: in particular un-escaping is a left inverse. -/
